@@ -8,7 +8,7 @@ RULES = {
     "G5": order.rule_G5,
     "G6": order.rule_G6,
     "G7": order.rule_G7,
-    "G8": order.rule_G8, "G9": order.rule_G9, "G10": order.rule_G10, "G11": order.rule_G11, "G12": order.rule_G12, "B8": proto.rule_B8,
+    "G8": order.rule_G8, "G9": order.rule_G9, "G10": order.rule_G10, "G11": order.rule_G11, "G12": order.rule_G12, "G13": order.rule_G13, "B8": proto.rule_B8,
     "D1": effects.rule_D1,
     "D2": effects.rule_D2,
     "D3": effects.rule_D3,
